@@ -47,7 +47,7 @@ CHECKS['C02'] = ('model_checking',
 
 CHECKS['C10'] = ('exploration',
     'CrossHair/z3 path exploration over boolean adjacency matrices and workbook selectors; the real cycle analysis and the real ExcelModel run on each explored path against a brute-force / lazy-evaluation oracle',
-    'Bounded exhaustive exploration driven by the symbolic executor: simple_cycles reports every elementary cycle exactly once on all 512 digraphs with <= 3 nodes (self-loops, all skip sets) and all 4096 loop-free digraphs on 4 nodes; the lazy-branch predicates of IF/IFS/IFERROR/IFNA for all in-cycle flag combinations (symbolic booleans); 432 workbooks built on a 3-cell dependency ring with plain / IF-then / IF-else / IFERROR-fallback / both-branch edges and both guard values: finish(circular=True).calculate() terminates, cells off the ring keep their values, unavoidable cycles give the circular error, rings closing only through unselected branches resolve to the lazily evaluated values, and every ordinary value reported equals the lazy value.',
+    'Bounded exhaustive exploration driven by the symbolic executor: simple_cycles reports every elementary cycle exactly once on all 512 digraphs with <= 3 nodes (self-loops, all skip sets) and all 4096 loop-free digraphs on 4 nodes; the lazy-branch predicates of IF/IFS/IFERROR/IFNA for all in-cycle flag combinations (symbolic booleans); 816 workbooks (a 3-cell dependency ring, and three cells with nested IF expressions so that cycles share a cell and one formula holds two guarded back references) with plain / IF-then / IF-else / IFERROR-fallback / both-branch edges and both guard values: finish(circular=True).calculate() terminates, cells off the ring keep their values, unavoidable cycles give the circular error, rings closing only through unselected branches resolve to the lazily evaluated values, and every ordinary value reported equals the lazy value.',
     'All variables are selectors (each path = one concrete graph / workbook, run natively); graphs <= 4 nodes, rings of 3 cells, no ranges or names on the cycle; cell order / hash seed outside. ' + TB,
     'DESIGN.md §3 C10')
 
